@@ -295,6 +295,17 @@ fn structured_cases(ctx: &Ctx, scratch: &std::path::Path) -> Vec<Case> {
         add(&format!("size/macro-line-{}-parameters-x-{}-characters", uses, arg_len), format!(".macro m\n.db {}\n.endm\nm {}\n", "@0".repeat(uses), "x".repeat(arg_len)));
         add(&format!("size/macro-line-{}-parameters-x-{}-characters-second-argument", uses, arg_len), format!(".macro m\n.dw {}\n.endm\nm 1, {}\n", "@1+".repeat(uses), "7".repeat(arg_len.min(18))));
     }
+    // the same with text that is not ASCII on the line that grows too long, at every alignment: whatever the error
+    // says about the line, it says it without cutting a character in two
+    for lead in 0..6usize {
+        for (cn, ch) in [("2-byte", "\u{e4}"), ("3-byte", "\u{20ac}"), ("4-byte", "\u{1f600}")] {
+            add(
+                &format!("size/macro-line-too-long-with-{}-characters/offset-{}", cn, lead),
+                format!(".macro m\n\t.db \"{}{}\", {} ; {}\n.endm\n\tm {}\n", "x".repeat(lead), ch.repeat(40), "@0, ".repeat(3000), ch.repeat(30), "1+".repeat(40)),
+            );
+        }
+    }
+    add("size/macro-name-not-ascii-too-long-line", format!(".macro gr\u{f6}\u{df}e\n.dw {}\n.endm\ngr\u{f6}\u{df}e {}\n", "@0+".repeat(20000), "9".repeat(18)));
     add("recursion/macro-arg-doubling", ".macro m\n.dq @0\n.endm\n.equ a0 = 1\n.equ a1 = a0+a0\n.equ a2 = a1+a1\n.equ a3 = a2+a2\nm a3+a3\n".into());
     add("recursion/equ-label-same-name", "a: .equ a = a\n.dw a\n".into());
     // a macro that calls itself (or the next one) with an argument that grows at every level: glued,
